@@ -1,27 +1,128 @@
-"""In-memory file system behind the decoder's dump-file seam (`open` / `os.makedirs` as seen by nmea2000.decoder)."""
+"""In-memory file system behind the decoder's dump-file seam (`open` / `os.*` as seen by nmea2000.decoder).
+
+The fake answers the whole text/binary file interface a maintainer may reasonably use for an append-only dump file
+(write, writelines, flush, fsync through fileno, truncate, read back, rename/replace/remove, exists/getsize ...): a
+missing method would surface as an exception inside the library and be mistaken for a defect of the library.
+"""
+import io
 import os as _os
+
+_FD_BASE = 100000
 
 
 class FakeFile:
-    def __init__(self, fs, path, mode):
+    def __init__(self, fs, path, mode, encoding=None):
         self.fs = fs
-        self.path = path
+        self.path = self.name = path
         self.mode = mode
+        self.binary = "b" in mode
+        self.encoding = None if self.binary else (encoding or "utf-8")
         self.closed = False
         self.flushes = 0
+        self.fd = _FD_BASE + len(fs.handles)
+        self.pos = 0
 
-    def write(self, s):
+    # -- helpers ---------------------------------------------------------------------------------------
+    def _check(self):
         if self.closed:
             raise ValueError("I/O operation on closed file.")
+
+    def _text(self, s):
+        if self.binary:
+            if not isinstance(s, (bytes, bytearray, memoryview)):
+                raise TypeError("a bytes-like object is required, not '%s'" % type(s).__name__)
+            return bytes(s).decode("utf-8", errors="surrogateescape")
         if not isinstance(s, str):
             raise TypeError("write() argument must be str, not %s" % type(s).__name__)
-        self.fs.files[self.path].append(s)
-        self.fs.log.append(("write", self.path, len(s)))
+        return s
+
+    # -- writing ---------------------------------------------------------------------------------------
+    def writable(self):
+        return any(c in self.mode for c in "wax+")
+
+    def write(self, s):
+        self._check()
+        if not self.writable():
+            raise io.UnsupportedOperation("not writable")
+        t = self._text(s)
+        self.fs.files[self.path].append(t)
+        self.fs.log.append(("write", self.path, len(t)))
         return len(s)
 
+    def writelines(self, lines):
+        for l in lines:
+            self.write(l)
+
     def flush(self):
+        self._check()
         self.flushes += 1
         self.fs.log.append(("flush", self.path))
+
+    def truncate(self, size=None):
+        self._check()
+        cur = self.fs.content(self.path)
+        size = self.pos if size is None else size
+        self.fs.files[self.path] = [cur[:size]]
+        return size
+
+    # -- reading (for '+' and 'r' modes) -----------------------------------------------------------------
+    def readable(self):
+        return "r" in self.mode or "+" in self.mode
+
+    def _all(self):
+        c = self.fs.content(self.path)
+        return c.encode("utf-8", errors="surrogateescape") if self.binary else c
+
+    def read(self, n=-1):
+        self._check()
+        if not self.readable():
+            raise io.UnsupportedOperation("not readable")
+        data = self._all()
+        out = data[self.pos:] if n is None or n < 0 else data[self.pos:self.pos + n]
+        self.pos += len(out)
+        return out
+
+    def readline(self, *a):
+        self._check()
+        data = self._all()
+        nl = b"\n" if self.binary else "\n"
+        i = data.find(nl, self.pos)
+        end = len(data) if i < 0 else i + 1
+        out = data[self.pos:end]
+        self.pos = end
+        return out
+
+    def readlines(self, *a):
+        out = []
+        while True:
+            l = self.readline()
+            if not l:
+                return out
+            out.append(l)
+
+    def __iter__(self):
+        return iter(self.readlines())
+
+    def seek(self, off, whence=0):
+        self._check()
+        n = len(self._all())
+        self.pos = off if whence == 0 else (self.pos + off if whence == 1 else n + off)
+        return self.pos
+
+    def tell(self):
+        self._check()
+        return len(self._all()) if ("a" in self.mode or "w" in self.mode) else self.pos
+
+    def seekable(self):
+        return True
+
+    # -- the rest ----------------------------------------------------------------------------------------
+    def fileno(self):
+        self._check()
+        return self.fd
+
+    def isatty(self):
+        return False
 
     def close(self):
         if not self.closed:
@@ -29,10 +130,15 @@ class FakeFile:
             self.fs.log.append(("close", self.path))
 
     def __enter__(self):
+        self._check()
         return self
 
     def __exit__(self, *a):
         self.close()
+
+    @property
+    def buffer(self):
+        return self
 
 
 class FakeFS:
@@ -42,22 +148,27 @@ class FakeFS:
         self.dirs = set()
         self.log = []
 
-    def open(self, path, mode="r", *a, **kw):
-        if "a" in mode or "w" in mode:
+    def open(self, path, mode="r", buffering=-1, encoding=None, errors=None, newline=None, *a, **kw):
+        path = _os.fspath(path)
+        if any(c in mode for c in "wax"):
             d = _os.path.dirname(path)
             if d and d not in self.dirs:
                 raise FileNotFoundError(2, "No such file or directory", path)
+            if "x" in mode and path in self.files:
+                raise FileExistsError(17, "File exists", path)
             if "w" in mode or path not in self.files:
                 self.files.setdefault(path, [])
                 if "w" in mode:
                     self.files[path] = []
-            h = FakeFile(self, path, mode)
-            self.handles.append(h)
-            self.log.append(("open", path, mode))
-            return h
-        raise FileNotFoundError(2, "No such file or directory", path)
+        elif path not in self.files:
+            raise FileNotFoundError(2, "No such file or directory", path)
+        h = FakeFile(self, path, mode, encoding)
+        self.handles.append(h)
+        self.log.append(("open", path, mode))
+        return h
 
     def makedirs(self, name, mode=0o777, exist_ok=False):
+        name = _os.fspath(name)
         if name in self.dirs and not exist_ok:
             raise FileExistsError(name)
         parts = name.split("/")
@@ -65,21 +176,87 @@ class FakeFS:
             self.dirs.add("/".join(parts[:i]))
         self.log.append(("makedirs", name))
 
+    def mkdir(self, name, mode=0o777):
+        name = _os.fspath(name)
+        if name in self.dirs:
+            raise FileExistsError(17, "File exists", name)
+        parent = _os.path.dirname(name)
+        if parent and parent not in self.dirs:
+            raise FileNotFoundError(2, "No such file or directory", name)
+        self.dirs.add(name)
+
     def content(self, path):
         return "".join(self.files.get(path, []))
+
+    # -- os-level operations on fake paths -----------------------------------------------------------------
+    def exists(self, p):
+        p = _os.fspath(p)
+        return p in self.files or p in self.dirs
+
+    def isfile(self, p):
+        return _os.fspath(p) in self.files
+
+    def isdir(self, p):
+        return _os.fspath(p) in self.dirs
+
+    def getsize(self, p):
+        p = _os.fspath(p)
+        if p not in self.files:
+            raise FileNotFoundError(2, "No such file or directory", p)
+        return len(self.content(p).encode("utf-8", errors="surrogateescape"))
+
+    def rename(self, src, dst, *a, **kw):
+        src, dst = _os.fspath(src), _os.fspath(dst)
+        if src not in self.files:
+            raise FileNotFoundError(2, "No such file or directory", src)
+        self.files[dst] = self.files.pop(src)
+        self.log.append(("rename", src, dst))
+
+    def remove(self, p, *a, **kw):
+        p = _os.fspath(p)
+        if p not in self.files:
+            raise FileNotFoundError(2, "No such file or directory", p)
+        del self.files[p]
+        self.log.append(("remove", p))
+
+    def listdir(self, d="."):
+        d = _os.fspath(d).rstrip("/")
+        return sorted({p[len(d) + 1:].split("/")[0] for p in list(self.files) + list(self.dirs) if p.startswith(d + "/")})
+
+    def fsync(self, fd):
+        if not (isinstance(fd, int) and fd >= _FD_BASE):
+            fd = fd.fileno()
+        self.log.append(("fsync", fd))
+
+
+class _PathShim:
+    def __init__(self, fs):
+        self._fs = fs
+        self.exists = self.lexists = fs.exists
+        self.isfile = fs.isfile
+        self.isdir = fs.isdir
+        self.getsize = fs.getsize
+
+    def __getattr__(self, name):
+        return getattr(_os.path, name)
 
 
 class _OsShim:
     def __init__(self, fs):
-        self.path = _os.path
+        self.path = _PathShim(fs)
         self.makedirs = fs.makedirs
+        self.mkdir = fs.mkdir
+        self.rename = self.replace = fs.rename
+        self.remove = self.unlink = fs.remove
+        self.listdir = fs.listdir
+        self.fsync = self.fdatasync = fs.fsync
 
     def __getattr__(self, name):
         return getattr(_os, name)
 
 
 class installed:
-    """Context manager: route nmea2000.decoder's open()/os.makedirs() to a FakeFS."""
+    """Context manager: route nmea2000.decoder's open()/os.*() to a FakeFS."""
 
     def __init__(self, fs):
         self.fs = fs
